@@ -289,6 +289,18 @@ var stringsModels = map[string]string{
 	"strings.Join":         "VerifModelJoin",
 	"strings.Repeat":       "VerifModelRepeat",
 	"strings.EqualFold":    "VerifModelEqualFold",
+	"strings.Cut":          "VerifModelCut",
+	"strings.CutPrefix":    "VerifModelCutPrefix",
+	"strings.CutSuffix":    "VerifModelCutSuffix",
+	"strings.LastIndex":    "VerifModelLastIndex",
+	"strings.IndexByte":    "VerifModelIndexByte",
+	"strings.Count":        "VerifModelCount",
+	"strings.ReplaceAll":   "VerifModelReplaceAll",
+	"strings.TrimLeft":     "VerifModelTrimLeft",
+	"strings.TrimRight":    "VerifModelTrimRight",
+	"strings.Trim":         "VerifModelTrim",
+	"strings.ToLower":      "VerifModelToLower",
+	"strings.ToUpper":      "VerifModelToUpper",
 }
 
 func (e *stubEnv) external(r *engine.Run, fn *ssa.Function, args []engine.Value, site ssa.Instruction) (engine.Value, bool) {
